@@ -181,6 +181,11 @@ def run_scene(desc):
         if v["sig"] not in seen:
             seen.add(v["sig"])
             viol.append(v)
+    degenerate_mpr = gs.flat_plane_contains_other_centre(s["rA"], s["rB"], L)
+    cls_plain = cls
+
+    def cls_of(name):
+        return cls_plain + ":flat_plane_contains_other_centre" if (name == "b_mpr" and degenerate_mpr) else cls_plain
     delta = 1e-3 * L
     if tr.get("overlap") is True:
         judged = min(tr.get("depthA", 0), tr.get("depthB", 0)) >= 3 * delta
@@ -202,7 +207,7 @@ def run_scene(desc):
     o2, _ = queries(B2, A2, judged, prim_ok, False)
     n_eval += len(o2)
     for name in base:
-        compare(name, base[name], o2.get(name), 1.0, L, "swap", cls, ctx, add)
+        compare(name, base[name], o2.get(name), 1.0, L, "swap", cls_of(name), ctx, add)
     # rigid motions
     MOT = motions_for(desc)
     for m in range(len(MOT)):
@@ -215,7 +220,7 @@ def run_scene(desc):
         n_eval += len(om)
         nontriv += 1 if MOT[m][0] != 0 else 0
         for name in base:
-            compare(name, base[name], om.get(name), 1.0, Lm, "motion%d" % m, cls, dict(ctx, motion=MOT[m]), add)
+            compare(name, base[name], om.get(name), 1.0, Lm, "motion%d" % m, cls_of(name), dict(ctx, motion=MOT[m]), add)
     # scalings (only from unit-size scenes, so that the scaled scene stays in [1e-2, 1e2])
     if desc["sa"] in (0, 3) and desc["sb"] in (0, 3) and desc["pl"] not in (2, 3, 6, 13):
         for k in (0.05, 1e2):     # unit sizes 0.3..1.0 stay inside the domain [1e-2, 1e2]
@@ -225,7 +230,7 @@ def run_scene(desc):
             ok, _ = queries(Ak, Bk, judged, prim_ok, False)
             n_eval += len(ok)
             for name in base:
-                compare(name, base[name], ok.get(name), k, L, "scale%g" % k, cls, dict(ctx, scale=k), add)
+                compare(name, base[name], ok.get(name), k, L, "scale%g" % k, cls_of(name), dict(ctx, scale=k), add)
     return {"viol": viol, "n_eval": n_eval, "n_trans": n_eval, "traces": n_eval, "nontrivial_n": nontriv, "hist": {"kind": {"scene": 1}},
             "sample": {"desc": desc, "observations": base} if (desc["ta"] == "cone" and desc["tb"] == "box" and desc["pl"] == 4) else None}
 
